@@ -313,29 +313,34 @@ def canonical_min_rule(ctx, rule):
 
 
 def header_line_rule(ctx):
-    """header line == get_header().join(&delim) + "\\n" in the batch and the mmap path"""
-    terms = []
+    """header line == get_header().join(&delim) + "\\n" in the batch and the mmap path (however the string is assembled)"""
+    want = [("term", ("call", "alloc::slice::<impl [T]>::join",
+                      ("call", "composition::oligo::OligoComputer::get_header", ("self",)), SF("delim"))), ("lit", "\n")]
     for path in ("composition::oligo::OligoComputer::vectorise_batch",
                  "composition::oligo::OligoComputer::vectorise_mmap"):
         fv = ctx.need("C03.L", path)
         if fv is None:
             continue
-        exp = mk_bin("+", ("call", "alloc::slice::<impl [T]>::join",
-                           ("call", "composition::oligo::OligoComputer::get_header", ("self",)), SF("delim")),
-                     L("\n"))
-        found = [n for n in fv.nodes if n.get("k") == "bin" and n.get("op") == "+" and n.get("ty", "").endswith("String")]
-        hit = [n for n in found if _header_term(fv.term(n))]
-        ctx.check("C03.L", "%s:header_line" % path.split("::")[-1], len(hit) == 1,
+        cands = []
+        for lid, b in fv.binds.items():
+            if b["name"] == "header" and b["val"][0] in ("node", "uninit"):
+                cands.append(string_pieces(fv, ("local", b["name"], lid)))
+        # a mutable `header` assigned later: take the assigned value
+        for n in fv.nodes:
+            if n.get("k") == "assign" and n["l"].get("k") == "local" and n["l"]["name"] == "header":
+                cands.append(string_pieces(fv, fv.term(n["r"])))
+        # or an `if self.header { X } else { String::new() }` initialiser
+        more = []
+        for ps in cands:
+            if len(ps) == 1 and ps[0][0] == "term" and ps[0][1][0] == "if" and ps[0][1][1] == SF("header"):
+                more.append(string_pieces(fv, ps[0][1][2]))
+        cands += more
+
+        def norm(ps):
+            return [("term", ("call", "join") + p[1][2:]) if p[0] == "term" and p[1][0] == "call" and p[1][1].endswith("::join")
+                    else p for p in ps]
+        hit = [ps for ps in cands if norm(ps) == norm(want)]
+        ctx.check("C03.L", "%s:header_line" % path.split("::")[-1], len(hit) >= 1,
                   "header line = get_header().join(delim) + \"\\n\"",
-                  "header line is not built as get_header().join(&self.delim) + \"\\n\" (found %s)"
-                  % [show(fv.term(n)) for n in found], line_of(found[0]) if found else fv.fn["sp"])
-
-
-def _header_term(t):
-    if t[0] != "bin" or t[1] != "+":
-        return False
-    a, b = t[2], t[3]
-    if a == L("\n"):
-        a, b = b, a
-    return b == L("\n") and a[0] == "call" and a[1].endswith("::join") and len(a) == 4 \
-        and a[2] == ("call", "composition::oligo::OligoComputer::get_header", ("self",)) and a[3] == SF("delim")
+                  "header line is not get_header().join(&self.delim) followed by a newline (found %s)"
+                  % [[(p[0], show(p[1]) if p[0] == "term" else p[1]) for p in ps] for ps in cands][:3], fv.fn["sp"])
